@@ -53,6 +53,7 @@ def lexer_paths(f):
         chars = []
         boundary = False
         ok = True
+        digit_atoms = []
         for c in p.conds:
             if c[0] == 'switch':
                 t = canon(c[1], env, subst=False)
@@ -72,28 +73,35 @@ def lexer_paths(f):
                 if isinstance(t, tuple) and t[0] == ',':
                     t = t[-1]
                 pol = c[2]
-                if isinstance(t, tuple) and t[0] in ('!=', '==') and len(t) == 3 and READ in t[1:]:
-                    other = [x for x in t[1:] if x != READ][0]
-                    if not (isinstance(other, tuple) and other[0] == 'num'):
+                # conditions arrive as atomic decisions (tables.decisions): a comparison of the character just read, is_id_part(ch), or a range test
+                if isinstance(t, tuple) and t[0] in ('!=', '==') and len(t) == 3 and (READ in t[1:] or CH in t[1:]):
+                    other = [x for x in t[1:] if x not in (READ, CH)]
+                    if len(other) != 1 or not (isinstance(other[0], tuple) and other[0][0] == 'num'):
                         ok = False
                         break
                     eq = (t[0] == '==') == pol
-                    if eq:
-                        chars.append(other[1])
+                    if other[0][1] == -1:
+                        if eq:
+                            boundary = True         # end of input right after the lexeme
+                    elif eq:
+                        chars.append(other[0][1])
                     else:
-                        chars.append(('not', other[1]))
-                elif isinstance(t, tuple) and t[0] == '&&' and any(isinstance(x, tuple) and x[0] == '!=' and READ in x[1:] and ('num', -1) in x[1:] for x in t[1:]) and 'is_id_part' in show(t):
+                        chars.append(('not', other[0][1]))
+                elif isinstance(t, tuple) and t[0] in ('call', 'mcall') and str(t[1]).endswith('is_id_part'):
                     if pol:
                         ok = False      # identifier continues: not a keyword path
                         break
                     boundary = True
-                elif isinstance(t, tuple) and t[0] == '&&' and 'ch' in show(t) and all(isinstance(x, tuple) and x[0] in ('<=',) for x in t[1:]):
-                    if pol:
-                        ok = False          # digit after '.': number literal path
-                        break
+                elif isinstance(t, tuple) and t[0] in ('<', '<=') and len(t) == 3 and (CH in t[1:] or READ in t[1:]):
+                    # digit range test after '.': ch >= '0' and ch <= '9' in any spelling
+                    lo = (t[1] == ('num', 48) and t[0] == '<=' and pol) or (t[2] == ('num', 48) and t[0] == '<' and not pol)
+                    hi = (t[2] == ('num', 57) and t[0] == '<=' and pol) or (t[1] == ('num', 57) and t[0] == '<' and not pol)
+                    digit_atoms.append('lo' if lo else ('hi' if hi else 'out'))
                 else:
                     ok = False
                     break
+        if 'lo' in digit_atoms and 'hi' in digit_atoms:
+            ok = False              # a digit follows the '.': number literal path
         if not ok:
             continue
         out.append((chars, boundary, r, p))
